@@ -25,8 +25,9 @@ type Scenario struct {
 	Root     func()
 	Check    func(o *obs.Obs) string // "" or "signature|message"
 	PoolLIFO bool
-	Bound    int // preemption bound, <0 = unbounded
-	Sample   any // printable description of the configuration
+	Bound    int  // preemption bound, <0 = unbounded
+	Sym      bool // sibling library goroutines (workers of one fork stage) are interchangeable
+	Sample   any  // printable description of the configuration
 	// Nontrivial reports whether the explored scenario is non-trivial given the number of distinct outcomes
 	Nontrivial func(outcomes, executions, states int) bool
 	// Count lets the scenario add counters from each terminal state
@@ -57,7 +58,7 @@ func (s *Scenario) explorer(deadline time.Time, counters, maxima map[string]int)
 	return &explore.Explorer{
 		Bound: s.Bound, Cache: true, MaxViol: 1, Deadline: deadline,
 		Root: s.Root,
-		Cfg:  func(x *rt.Exec) { x.LibPrefix = LibPrefix; x.PoolLIFO = s.PoolLIFO },
+		Cfg:  func(x *rt.Exec) { x.LibPrefix = LibPrefix; x.PoolLIFO = s.PoolLIFO; x.Symmetry = s.Sym },
 		Check: func(x *rt.Exec) string {
 			o := Observe(x)
 			if s.Count != nil && counters != nil {
